@@ -62,7 +62,7 @@ def run_pipeline(prop, tier):
     pool = os.path.join(wd, "field_pool.ndjson")
     extract_json_lines(ff["out_path"], pool)
     os.remove(ff["out_path"])
-    _, hw = run_harness(["msg", "--cases", cases, "--out", out, "--traces", traces, "--pool", pool,
+    _, hw = run_harness(["msg", "--cases", cases, "--out", out, "--traces", traces, "--pool", pool, "--embed", pool,
                          "--trace-every", str(p["trace_every"]), "--policies", str(p["policies"]),
                          "--trace-max-toks", str(p["trace_max"])])
     summary = json.load(open(out))
